@@ -837,6 +837,17 @@ example :
       [("id".toList, true), ("name".toList, true), ("display-name".toList, true), ("note".toList, false)] := by
   decide +kernel
 
+/-- What the guarded regression looks like: writing every key of the functional syntax only once is
+harmless when the LAST declaration is kept (that is what Python does with a repeated key anyway) and
+loses the required-only override when the FIRST one — the base's — is kept. -/
+theorem typedDict_keeping_first_declaration_loses_override :
+    let all : List TdField := [⟨some "name".toList, some "name".toList, tdTag 1 false⟩,
+      ⟨some "display_name".toList, some "display-name".toList, tdTag 2 false⟩,
+      ⟨some "name".toList, some "name".toList, tdTag 1 true⟩]
+    (dictGet "name".toList (dictOf (all.map TdField.entry))).map tdTagRequired = some true ∧
+    (dictGet "name".toList (dictOf ((keepFirstGo [] all).map TdField.entry))).map tdTagRequired = some false := by
+  decide +kernel
+
 /-! #### dataclasses / msgspec: the subclass must be creatable -/
 
 /-- a base member with a default followed by a subclass member without one: Python refuses the class
